@@ -173,13 +173,16 @@ Definition op_wf (rc : cfg) (o : sop) : bool :=
     (code <? 65536) && negb (close_code_bad code) && utf8_valid reason && (lenN reason <=? 123)
   end.
 
-(* size limit of the peer: the wire payload must pass the pre-buffering test, the message the post-inflate test *)
+(* size limit of the peer, in the reader's own (regenerated) tests: the wire payload passes the pre-buffering test of
+   READ_PAYLOAD_LENGTH (nothing buffered: partial length 0), the message passes the post-inflate test *)
 Definition fits (rc : cfg) (o : sop) (wlen : N) : bool :=
   (wlen <=? MAX_PAYLOAD_LEN)                 (* a frame length the reader can represent (sys.maxsize) *)
   && match o with
      | Send opcode p _ _ =>
        if is_data_op opcode then
-         (max_msg_size rc =? 0) || ((wlen <? max_msg_size rc) && (lenN p <=? max_msg_size rc))
+         negb (size_check_applies (max_msg_size rc) opcode
+               && size_reject (Z.of_N wlen) (Z.of_N (max_msg_size rc)) 0)
+         && negb (inflated_too_big (max_msg_size rc) (lenN p))
        else true
      | Close _ _ _ => true
      end.
